@@ -570,7 +570,11 @@ fn run_step(st: &mut State, step: &Value) -> Value {
         // ---- passes and gradient slots
         "backward" => {
             with_grads = true;
-            let seed = step.get("seed").filter(|s| s.is_object() && s.get("d").is_some()).map(tensor_in);
+            // the seed: a fresh array, or (seedh) a clone of a live handle - the caller keeps its own handle on it
+            let seed = match step.get("seedh").and_then(|h| h.as_i64()) {
+                Some(h) => Some(st.with_args(&[h], |xs| xs[0].clone())),
+                None => step.get("seed").filter(|s| s.is_object() && s.get("d").is_some()).map(tensor_in),
+            };
             st.log.entries.borrow_mut().clear();
             st.log.budget.set(step.get("budget").and_then(|b| b.as_i64()).unwrap_or(100000));
             let log = Rc::clone(&st.log);
@@ -590,13 +594,18 @@ fn run_step(st: &mut State, step: &Value) -> Value {
         "clear" => {
             with_grads = true;
             let how = step["how"].as_str().unwrap();
-            st.with_args(&args, |xs| {
+            let taken: Option<Array> = st.with_args(&args, |xs| {
                 if how == "replace" {
-                    let _ = xs[0].replace_gradient();
+                    xs[0].replace_gradient()
                 } else {
                     *xs[0].gradient_mut() = None;
+                    None
                 }
             });
+            if how == "replace" {
+                // what replace_gradient() handed out
+                ev.insert("taken".into(), match &taken { Some(g) => tensor_out(g), None => json!({"none": true}) });
+            }
         }
         "setgrad" => {
             with_grads = true;
